@@ -305,13 +305,38 @@ def handleC15 : List String → Option String
     let v ← getVal v
     if !hasTy v ty then pure "FAIL generator: value not of the type" else
     if !(if mode == "wire" then Spec.Serde.distinguishableW v ty else Spec.Serde.distinguishable v ty) then pure "ok" else
-    if res == valText v then pure "ok" else pure ("FAIL " ++ mode ++ " round trip of " ++ valText v ++ " gave " ++ res)
+    if res == valText v then pure "ok" else
+    -- beyond the decoder's own limits an error is the allowed outcome (reported, not altered); anything else is not
+    if mode == "wire" && !Spec.Serde.decodable (ser v) && (res == "err" || res == "encerr") then pure "ok" else
+    pure ("FAIL " ++ mode ++ " round trip of " ++ valText v ++ " gave " ++ res)
   -- the specification's classification of a value (which guards hold), tied to the harness's own classification
   | ["c15class", ty, v] => some <| run do
     let ty ← getTy ty
     let v ← getVal v
     pure ((if hasTy v ty then "ty" else "noty") ++ (if Spec.Serde.distinguishable v ty then ",dist" else ",nodist") ++
       (if Spec.Serde.distinguishableW v ty then ",distw" else ",nodistw"))
+  -- 128-bit integers: `to_term(&x)` / `from_term::<i128|u128>(t)`
+  | ["c15serwide", w, i] => some <| run do
+    let w ← (match w with | "i128" => pure WideTy.i128 | "u128" => pure WideTy.u128 | _ => throw "bad-wide")
+    let i ← (match i.toInt? with | some i => pure i | none => throw "bad-int")
+    pure (match serWide w i with | .ok t => "ok " ++ t.text | .error _ => "err")
+  | ["c15dewide", w, t] => some <| run do
+    let w ← (match w with | "i128" => pure WideTy.i128 | "u128" => pure WideTy.u128 | _ => throw "bad-wide")
+    let t ← getTerm t
+    pure (match deWide w t with | .ok i => "ok " ++ toString i | .error _ => "err")
+  -- oracle for integer reads on arbitrary terms: `res` (the implementation's `from_term::<k>(t)`) against the numeric value
+  -- of the term (Spec.Serde.intVal): in range ↦ exactly that value, otherwise an error
+  | ["c15int", k, t, res] => some <| run do
+    let ty ← getTy k
+    let t ← getTerm t
+    match ty with
+    | .int k =>
+      let expected := match Spec.Serde.intVal t with
+        | some i => if k.inRange i then valText (.int k i) else "err"
+        | none => "err"
+      if res == expected then pure "ok" else pure ("FAIL integer read: the term denotes " ++
+        (match Spec.Serde.intVal t with | some i => toString i | none => "no integer") ++ ", from_term gave " ++ res)
+    | _ => throw "bad-int-ty"
   | _ => none
 
 end Edp.Drv
